@@ -54,8 +54,20 @@ Section Rows.
     exists d, declared = Some d /\ d <> given.
   (* incomplete operations *)
   Definition Incomplete (nodes : list (opfields T)) : Prop := exists o, In o nodes /\ In None o.
+  (* builders used as context managers (`with cond:`, `with cond.add_case(i) as case:`, `with dfg.add_nested() ...`):
+     the calls of the body run in sequence and are not caught.  Accepted c os c1: every call of os is accepted,
+     taking the conditional from c to c1.  RaisesInside c body c1 e: the body's calls are accepted up to a call
+     that is refused with e in state c1 (what follows it never runs).  The property's "raise an error, never
+     silently accept" then means: an error leaves the outermost `with`, whatever contexts are in between. *)
+  Variable teqb : T -> T -> bool.
+  Inductive Accepted : cond T -> list (cond_op T) -> cond T -> Prop :=
+  | Acc_nil : forall c, Accepted c [] c
+  | Acc_cons : forall c o c1 r c2, cond_step T teqb c o = Ok c1 -> Accepted c1 r c2 -> Accepted c (o :: r) c2.
+  Definition RaisesInside (c : cond T) (body : list (cond_op T)) (c1 : cond T) (e : eclass) : Prop :=
+    exists pre o post, body = pre ++ o :: post /\ Accepted c pre c1 /\ cond_step T teqb c1 o = Err e.
 End Rows.
 Arguments CaseOutOfRange {T}. Arguments CaseBuiltTwice {T}. Arguments CasesDisagree {T}.
+Arguments Accepted {T}. Arguments RaisesInside {T}.
 Arguments UnbuiltCases {T}. Arguments ExitDisagrees {T}. Arguments OutputsDiffer {T}. Arguments Incomplete {T}.
 
 (* polymorphic function called / loaded without a matching instantiation and argument count *)
